@@ -21,9 +21,11 @@ import (
 
 	"mellium.im/xmlstream"
 	"mellium.im/xmpp"
+	"mellium.im/xmpp/component"
 	"mellium.im/xmpp/jid"
 	"mellium.im/xmpp/stanza"
 	"mellium.im/xmpp/stream"
+	"mellium.im/xmpp/websocket"
 
 	"verifharness/vt"
 )
@@ -36,6 +38,9 @@ type Req struct {
 	// IDMode: "" = the caller supplies the id (its own name); "absent" = no id attribute, "empty" = an
 	// empty id attribute: the library generates the id, the peer answers with the id it saw on the wire
 	IDMode string `json:"idmode"`
+	// Hold: the application does something else between obtaining the response and closing it (a yield
+	// point of its own after the call returned): contexts may end and the serve loop may run in between
+	Hold bool `json:"hold"`
 }
 
 type Item struct {
@@ -43,6 +48,8 @@ type Item struct {
 	Kind string `json:"kind"`
 	Resp bool   `json:"resp"`
 	Err  bool   `json:"err"` // type error instead of result (iq)
+	// After: the peer sends this item only after the named requester's call has returned (a late reply)
+	After string `json:"after"`
 }
 
 type Scenario struct {
@@ -51,9 +58,82 @@ type Scenario struct {
 	Cancels []string `json:"cancels"`
 	// CloseOut: a goroutine closes the output stream, so that a request's send can fail
 	CloseOut bool `json:"closeout"`
+	// SKind: the kind of session the requests are issued on: "" / c2s (initiated, application negotiator),
+	// c2s-recv (received), s2s (initiated, jabber:server), ws (websocket.NewSession), comp
+	// (component.NewSession against a scripted component server)
+	SKind string `json:"skind"`
+	// Qual: how the peer qualifies its stanzas: "" / default = unqualified within the stream's default
+	// namespace, explicit = the session's stanza namespace declared on the stanza itself
+	Qual string `json:"qual"`
+	// MaxRuns > 0 caps the schedules explored for this scenario (overrides COR_MAXRUNS)
+	MaxRuns int `json:"maxruns"`
 }
 
-const hdrIn = `<stream:stream from="example.net" to="me@example.net" id="123" version="1.0" xmlns="jabber:client" xmlns:stream="http://etherx.jabber.org/streams">`
+func (sc Scenario) skind() string {
+	if sc.SKind == "" {
+		return "c2s"
+	}
+	return sc.SKind
+}
+
+func (sc Scenario) qual() string {
+	if sc.skind() == "ws" {
+		return "explicit" // every top-level element of a WebSocket stream names its namespace
+	}
+	if sc.Qual == "" {
+		return "default"
+	}
+	return sc.Qual
+}
+
+// contentNS is the namespace the stanzas of a session of that kind live in.
+func (sc Scenario) contentNS() string {
+	switch sc.skind() {
+	case "s2s":
+		return stanza.NSServer
+	case "comp":
+		return component.NSAccept
+	}
+	return stanza.NSClient
+}
+
+const (
+	streamNS  = "http://etherx.jabber.org/streams"
+	framingNS = "urn:ietf:params:xml:ns:xmpp-framing"
+)
+
+func tcpHeader(ns string) string {
+	return fmt.Sprintf(`<stream:stream from="example.net" to="me@example.net" id="123" version="1.0" xmlns="%s" xmlns:stream="%s">`, ns, streamNS)
+}
+
+// openSession makes a real session of the scenario's kind over conn; the peer's part of the negotiation is
+// fed beforehand (the transport is buffered, the negotiation runs before the scheduler exists).
+func openSession(sc Scenario, conn *vt.Conn) (*xmpp.Session, error) {
+	ctx := context.Background()
+	local, remote := jid.MustParse("me@example.net"), jid.MustParse("example.net")
+	switch sc.skind() {
+	case "c2s":
+		conn.FeedString(tcpHeader(stanza.NSClient))
+		return xmpp.NewSession(ctx, remote, local, conn, 0, nopNeg(stanza.NSClient))
+	case "c2s-recv":
+		conn.FeedString(tcpHeader(stanza.NSClient))
+		return xmpp.ReceiveSession(ctx, conn, 0, nopNeg(stanza.NSClient))
+	case "s2s":
+		conn.FeedString(tcpHeader(stanza.NSServer))
+		return xmpp.NewSession(ctx, remote, jid.MustParse("me.example"), conn, xmpp.S2S, nopNeg(stanza.NSServer))
+	case "ws":
+		conn.FeedString(fmt.Sprintf(`<open xmlns="%s" from="example.net" to="me@example.net" id="123" version="1.0"/><stream:features xmlns:stream="%s"/>`,
+			framingNS, streamNS))
+		return websocket.NewSession(ctx, local, conn)
+	case "comp":
+		// the scripted component server: its stream header (the handshake is the hash of its id and the
+		// secret; a scripted server accepts it) and the acknowledgement
+		conn.FeedString(fmt.Sprintf(`<?xml version='1.0'?><stream:stream xmlns='%s' xmlns:stream='%s' from='comp.example.net' id='sid1'><handshake/>`,
+			component.NSAccept, streamNS))
+		return component.NewSession(ctx, jid.MustParse("comp.example.net"), []byte("s3cr3t"), conn)
+	}
+	return nil, fmt.Errorf("driver: unknown session kind %q", sc.SKind)
+}
 
 func nopNeg(ns string) xmpp.Negotiator {
 	return func(ctx context.Context, in, out *stream.Info, s *xmpp.Session, data interface{}) (xmpp.SessionState, io.ReadWriter, interface{}, error) {
@@ -78,7 +158,13 @@ func nopNeg(ns string) xmpp.Negotiator {
 
 var wireRe = regexp.MustCompile(`<(?:iq|message|presence)[^>]*\bid="([^"]*)"[^>]*>\s*<x [^>]*who="([^"]*)"`)
 
-func itemBytes(it Item) string {
+// itemBytes renders a peer item; ns is "" (unqualified: the stream's default namespace) or the xmlns
+// attribute the peer declares on the stanza.
+func itemBytes(it Item, ns string) string {
+	return strings.Replace(itemBytes0(it), " id='", ns+" id='", 1)
+}
+
+func itemBytes0(it Item) string {
 	switch it.Kind {
 	case "iq":
 		switch {
@@ -116,10 +202,14 @@ type result struct {
 func runSchedule(sc Scenario, choices []int) result {
 	lg := &vt.Log{}
 	conn := vt.NewConn()
-	conn.FeedString(hdrIn)
-	sess, err := xmpp.NewSession(context.Background(), jid.MustParse("example.net"), jid.MustParse("me@example.net"), conn, 0, nopNeg(stanza.NSClient))
+	sess, err := openSession(sc, conn)
 	if err != nil {
-		panic(err)
+		panic(fmt.Sprintf("session of kind %q could not be made: %v", sc.skind(), err))
+	}
+	negWire := len(conn.WireString()) // what the negotiation wrote: not part of the request / reply stream
+	nsAttr := ""
+	if sc.qual() == "explicit" {
+		nsAttr = " xmlns='" + sc.contentNS() + "'"
 	}
 	sched := vt.NewSched()
 	// ids: a requester's stanza id is its own name unless the library generates it; then the
@@ -246,6 +336,9 @@ func runSchedule(sc Scenario, choices []int) result {
 					}
 				}
 				lg.Add(e)
+				if r.Hold {
+					sched.Gate("caller.got")
+				}
 				for k := 0; k < r.Reads; k++ {
 					if _, err := resp.Token(); err != nil {
 						break
@@ -315,6 +408,9 @@ func runSchedule(sc Scenario, choices []int) result {
 				if fed != i {
 					return false
 				}
+				if it.After != "" && !returned[it.After] {
+					return false
+				}
 				if strings.HasPrefix(it.ID, "@") { // answers the request it has seen on the wire
 					_, ok := onWire(it.ID[1:])
 					return ok
@@ -329,16 +425,39 @@ func runSchedule(sc Scenario, choices []int) result {
 					name = it.ID[1:]
 					x.ID, _ = onWire(name)
 				}
-				lg.Add(vt.Ev{"ev": "peer", "item": vt.Ev{"id": name, "kind": it.Kind, "resp": it.Resp}})
-				conn.FeedString(itemBytes(x))
+				lg.Add(vt.Ev{"ev": "peer", "item": vt.Ev{"id": name, "kind": it.Kind, "resp": it.Resp, "q": sc.qual()}})
+				conn.FeedString(itemBytes(x, nsAttr))
 			}})
 	}
-	for _, c := range sc.Cancels {
-		c := c
+	for _, cs := range sc.Cancels {
+		// "i1" = at any time; "i1>sent" = once the request is on the wire; "i1>got" = once the call has returned
+		c, phase := cs, ""
+		if k := strings.Index(cs, ">"); k >= 0 {
+			c, phase = cs[:k], cs[k+1:]
+		}
 		if cancels[c] == nil {
 			panic("scenario cancels " + c + ", which is not one of its requesters")
 		}
-		sched.Env(&vt.EnvAction{Name: "cancel:" + c, Once: true, Do: func() {
+		var enabled func() bool
+		switch phase {
+		case "":
+		case "sent":
+			enabled = func() bool {
+				idmu.Lock()
+				defer idmu.Unlock()
+				for _, n := range wireID {
+					if n == c {
+						return true
+					}
+				}
+				return false
+			}
+		case "got":
+			enabled = func() bool { return returned[c] }
+		default:
+			panic("scenario: unknown cancellation phase " + cs)
+		}
+		sched.Env(&vt.EnvAction{Name: "cancel:" + c, Once: true, Enabled: enabled, Do: func() {
 			cancelledNow[c] = true
 			lg.Add(vt.Ev{"ev": "cancel", "i": c})
 			cancels[c]()
@@ -376,7 +495,7 @@ func runSchedule(sc Scenario, choices []int) result {
 	{
 		counts := map[string]int{}
 		var scn vt.Scanner
-		for _, t := range scn.Feed([]byte(conn.WireString())) {
+		for _, t := range scn.Feed([]byte(conn.WireString()[negWire:])) {
 			if (t.Kind == "start" || t.Kind == "empty") && t.Depth == 0 && vt.Local(t.Name) == "iq" &&
 				(t.Attr["type"] == "error" || t.Attr["type"] == "result") {
 				counts[t.Attr["id"]]++
@@ -399,6 +518,13 @@ func runSchedule(sc Scenario, choices []int) result {
 	}
 	conn.CloseIn()
 	return result{evs: lg.Events(), res: res, note: note}
+}
+
+func scMaxRuns(sc Scenario, def int) int {
+	if sc.MaxRuns > 0 {
+		return sc.MaxRuns
+	}
+	return def
 }
 
 func isStanzaErr(err error) bool {
@@ -450,7 +576,7 @@ func main() {
 		vt.Explore(func(choices []int) vt.RunResult {
 			last = runSchedule(sc, choices)
 			return last.res
-		}, maxPre, maxRuns, func(choices []int) bool {
+		}, maxPre, scMaxRuns(sc, maxRuns), func(choices []int) bool {
 			runs++
 			if last.note == "stuck" {
 				stuck++
@@ -470,7 +596,7 @@ func main() {
 					auto = append(auto, r.Name)
 				}
 			}
-			t := tw.Write(vt.Ev{"reqs": reqs, "autoclose": auto}, last.evs)
+			t := tw.Write(vt.Ev{"reqs": reqs, "autoclose": auto, "skind": sc.skind()}, last.evs)
 			tw.Meta(vt.Ev{"scenario": sc, "choices": choices, "note": last.note})
 			if len(samples) < 2 {
 				samples = append(samples, vt.Ev{"t": t, "scenario": sc, "choices": choices, "events": last.evs})
